@@ -1,5 +1,5 @@
 #!/bin/bash
-# Builds the Rust harness (dev and release) against /repo's current tree, offline.
+# Builds the Rust harnesses (runner: dev and release; runner-geo: dev) against /repo's current tree, offline.
 set -e
 cd "$(dirname "$0")/../harness/runner"
 export CARGO_NET_OFFLINE=true CARGO_TARGET_DIR="$(cd ../.. && pwd)/.cache/target"
@@ -8,3 +8,7 @@ mkdir -p "$CARGO_TARGET_DIR"
 cargo build --offline --quiet 2>&1 | grep -v '^WARNING conda' || true
 cargo build --offline --quiet --release 2>&1 | grep -v '^WARNING conda' || true
 test -x "$CARGO_TARGET_DIR/debug/runner" && test -x "$CARGO_TARGET_DIR/release/runner"
+cd ../runner-geo
+[ -f Cargo.lock ] || cp /repo/Cargo.lock .
+cargo build --offline --quiet 2>&1 | grep -v '^WARNING conda' || true
+test -x "$CARGO_TARGET_DIR/debug/runner-geo"
